@@ -37,3 +37,26 @@ package exterrors
 //@ pure func coherent(code int, ec EnhancedCode) bool = (ec[0] == 0 && ec[1] == 0 && ec[2] == 0) || ec[0] == code/100
 //@ type-invariant SMTPError C16: coherent(self.Code, self.EnhancedCode) && (self.Code/100 == 4 || self.Code/100 == 5)
 //@ type-invariant smtp.SMTPError C16: coherent(self.Code, self.EnhancedCode) && (self.Code/100 == 4 || self.Code/100 == 5)
+
+// Fields(err): the annotations collected along the Unwrap chain, outer ones winning. fieldVal is the abstract view;
+// Fields itself is trusted for now (map-range loop over interface values).
+//@ uninterp func fieldVal(e error, k string) any
+//@ func Fields
+//@   prop C16 C18
+//@   trusted
+//@   ensures result != nil
+//@   ensures forall k string :: has(result, k) == (fieldVal(err, k) != nil)
+//@   ensures forall k string :: has(result, k) ==> result[k] == fieldVal(err, k)
+
+// annotated(e): e carries an SMTP code annotation.  annWF(e): code and enhanced code annotations come from one
+// SMTPError satisfying its invariant (assumption about how maddy builds errors: only (*SMTPError).Fields provides them).
+//@ pure func annotated(e error) bool = isType(fieldVal(e, "smtp_code"), "int")
+//@ pure func annCode(e error) int = as(fieldVal(e, "smtp_code"), "int")
+//@ pure func annHasEC(e error) bool = isType(fieldVal(e, "smtp_enchcode"), "EnhancedCode")
+//@ pure func annEC(e error) EnhancedCode = as(fieldVal(e, "smtp_enchcode"), "EnhancedCode")
+//@ pure func annWF(e error) bool = (annotated(e) ==> (annCode(e)/100 == 4 || annCode(e)/100 == 5)) && (annotated(e) && annHasEC(e) ==> coherent(annCode(e), annEC(e))) && (annHasEC(e) ==> annotated(e)) && (annHasEC(e) || fieldVal(e, "smtp_enchcode") == nil)
+// Assumed for every error value (it is a statement about how errors are built in the tree, not about one function):
+//@ axiom annotations-well-formed: forall e error :: annWF(e)
+// annAgrees(e): the retry class of e is the class of its annotated code (holds when the outermost TemporaryErr on the
+// chain is the annotated SMTPError itself, which is how the tree builds them).
+//@ pure func annAgrees(e error) bool = annotated(e) ==> (tempOrUnspec(e) == (annCode(e)/100 == 4)) && (isTemp(e) == (annCode(e)/100 == 4))
